@@ -59,6 +59,8 @@ def scratch_root():
     path = os.path.join(base, 'tallysim-%d' % os.getpid())
     shutil.rmtree(path, ignore_errors=True)
     os.makedirs(path)
+    from . import proc
+    proc.build_locale(os.path.join(path, 'locale'))
     return path
 
 
@@ -68,6 +70,10 @@ def run_environment(seed, pid, i):
     many Windows ones)."""
     rng = util.rng_for(seed, pid, i, salt='environment')
     env = {'locale_encoding': rng.choice(['utf-8', 'utf-8', 'utf-8', 'cp1252', 'latin-1', 'ascii'])}
+    if i % 11 == 4:
+        # the shell the command is started from has a non-English LC_TIME (next to an English LANG): nothing changes unless the
+        # program adopts the environment's locale - then `%b` in a statement's date format means other month names
+        env['lc_time'] = 'nl_NL'
     if i % 7 == 5:
         # the interpreter runs with -O / PYTHONOPTIMIZE=1: assert statements are no-ops.  One run in seven, by the run index (7 is
         # coprime to every other stratification in the checks), so that a check can know which of its runs these are.
@@ -203,6 +209,8 @@ def run_check(mod, tier, seed, fresh_confirm=True):
             res.setdefault('count', {})['locale.' + proc.RUN_DEFAULTS.get('locale_encoding', 'utf-8')] = 1
             if proc.RUN_DEFAULTS.get('pyopt'):
                 res['count']['interpreter.optimized'] = 1
+            if proc.RUN_DEFAULTS.get('lc_time') and os.environ.get('TALLYSIM_LOCPATH'):
+                res['count']['environment.lc_time'] = 1
             return res
         results = pool.run_sharded(one, range(offset, offset + n), scratch)
         results = {i - offset: r for i, r in results.items()}
@@ -311,10 +319,14 @@ def run_check(mod, tier, seed, fresh_confirm=True):
         cov['distinct_violation_signatures'] = len(distinct)
         cov['components'] = mod.COMPONENTS
         cov['machine_environment'] = {
-            'what': 'per run, drawn from the seed and stored in replay files: the locale encoding (used by every text open() that names '
-                    'no encoding) and whether the interpreter runs with -O (tally re-imported in the simulated process with asserts compiled away)',
+            'what': 'per run, from the seed and the run index, stored in replay files: the locale encoding (used by every text open() that names '
+                    'no encoding), whether the interpreter runs with -O (one run in seven; tally re-imported in the simulated process with '
+                    'asserts compiled away), and the LC_TIME of the calling shell',
             'runs_by_locale_encoding': {k[7:]: v for k, v in count.items() if k.startswith('locale.')},
-            'runs_with_optimized_interpreter': count.get('interpreter.optimized', 0)}
+            'runs_with_optimized_interpreter': count.get('interpreter.optimized', 0),
+            'runs_with_dutch_LC_TIME_in_the_environment': count.get('environment.lc_time', 0),
+            'lc_time_note': 'one run in eleven: LANG=C.UTF-8 LC_TIME=nl_NL, the locale compiled with localedef into the scratch directory '
+                            '(LOCPATH); it matters only to a program that calls setlocale(LC_ALL, "") - the unchanged tree does not'}
         cov['simulated_time'] = ('tally has no timers: simulated time is not meaningful; reported instead: '
                                  'simulated process executions, file-system effects, pinned calendar dates')
         ev = {'property_id': mod.ID, 'tier': tier, 'seed': seed, 'level': mod.LEVEL, 'coverage': cov,
